@@ -27,8 +27,8 @@
 (*   e   = pushed element;  tr = TRUE: the push is truncated by the end    *)
 (*         of the script                                                   *)
 (*                                                                         *)
-(* A configuration c = [sv, fl, tx]: sigversion "base" | "v0" | "tap",     *)
-(* set of flag names, transaction context.                                 *)
+(* A configuration c = [sv, fl, tx, ax]: sigversion "base" | "v0" | "tap", *)
+(* set of flag names, transaction context, annex present.                  *)
 (***************************************************************************)
 EXTENDS Integers, Sequences, FiniteSets, TLC
 
@@ -54,7 +54,8 @@ KeyElem(name, form) == [t |-> "key", b |-> <<form>>, n |-> KeyLen(form), k |-> n
 \*   0 strict DER, low S        1 strict DER, high S
 \*   2 valid BER but not strict DER (padded R), low S
 \*   64 schnorr 64 bytes (ht = 0 implicit) / 65 bytes (ht # 0 appended)
-\* svc: 0 base, 1 v0, 2 tapscript, 3 taproot key path;  cs: code separator position signed
+\* svc: 0 base, 1 v0, 2 tapscript, 3 taproot key path, 4 / 5 key path / tapscript
+\* committing to an annex;  cs: code separator position signed
 SigLen(cls, ht) == CASE cls = 0 -> 71 [] cls = 1 -> 72 [] cls = 2 -> 72
                      [] cls = 64 -> (IF ht = 0 THEN 64 ELSE 65)
 SigElem(name, ht, cls, svc, cs) ==
@@ -267,22 +268,48 @@ KeyEncErr(e, c) ==
 
 SvCode(c) == CASE c.sv = "base" -> 0 [] c.sv = "v0" -> 1 [] c.sv = "tap" -> 2
 
+\* pushes of element sig among tokens
+PushesOf(sig, toks) == {i \in 1..Len(toks) : toks[i].op = "PUSH" /\ ~toks[i].tr /\ toks[i].e = sig}
+
+\* A signature cannot commit to itself: a signature that the signed part of
+\* the running script pushes (and that FindAndDelete does not remove first)
+\* cannot be valid.  Signed part: base / v0 the script code, tapscript the
+\* whole leaf script.
+SelfCovered(sig, c, script, code) ==
+    CASE c.sv = "base" -> \E i \in PushesOf(sig, code) : code[i].enc # Push(sig).enc
+      [] c.sv = "v0"   -> PushesOf(sig, code) # {}
+      [] c.sv = "tap"  -> PushesOf(sig, script) # {}
+
+\* Do code separator positions a and b (0 = none) select the same signed code?
+\* v0 signs the bytes after the separator as they are.  The base signature hash
+\* removes every OP_CODESEPARATOR from the script code first, so two positions
+\* with nothing but code separators between them sign the same thing.
+SameCode(a, b, c, script) ==
+    IF a = b THEN TRUE
+    ELSE IF c.sv # "base" THEN FALSE
+    ELSE LET lo == IF a < b THEN a ELSE b  hi == IF a < b THEN b ELSE a IN
+         hi <= Len(script) /\ \A i \in (lo + 1)..hi : script[i].op = "OP_CODESEPARATOR"
+
 \* ECDSA check of signature element sig against key element key in state s
 \* (after the encoding checks): the abstract signature is valid for exactly
 \* one key pair and one (sigversion, code separator position)
-EcdsaValid(sig, key, s, c) ==
+EcdsaValid(sig, key, s, c, script, code) ==
     /\ sig.t = "sig"
     /\ sig.b[2] \in {0, 1, 2}
     /\ KeyParsable(key)
     /\ sig.k = key.k
     /\ sig.b[3] = SvCode(c)
-    /\ sig.b[4] = s.cs
+    /\ SameCode(sig.b[4], s.cs, c, script)
+    /\ ~SelfCovered(sig, c, script, code)
     \* under DERSIG / STRICTENC the strict parser is used; BER then never
     \* gets here (SigEncErr).  Without them the lax parser accepts BER.
 
-\* the signature element occurs as a push in the script code (FindAndDelete, base only)
-SigInCode(sig, code) == \E i \in 1..Len(code) : code[i].op = "PUSH" /\ ~code[i].tr /\ code[i].e = sig
-                                                 /\ MinimalPush(code[i]) /\ code[i].enc = Push(sig).enc
+\* FindAndDelete(scriptCode, CScript() << sig) finds something: a push of sig in
+\* its smallest-by-length encoding; for the empty signature the pattern is the
+\* single byte 0x00, i.e. every OP_0 of the script code (base only)
+SigInCode(sig, code) ==
+    IF sig.n = 0 THEN \E i \in 1..Len(code) : code[i].op = "OP_0"
+    ELSE \E i \in PushesOf(sig, code) : code[i].enc = Push(sig).enc
 
 -----------------------------------------------------------------------------
 (* one opcode *)
@@ -348,66 +375,67 @@ DoIf(s, c, exec, negate) ==
 
 \* OP_CHECKSIG family, sigversions base and v0.  code = the tokens of the
 \* running script after the last executed code separator
-CheckSigLegacy(s, c, code) ==
+CheckSigLegacy(s, c, script, code) ==
     IF Depth(s) < 2 THEN Failed("stack")
     ELSE LET sig == Peek(s, 1)  key == Peek(s, 0)
              se == SigEncErr(sig, c)  ke == KeyEncErr(key, c)
-             found == c.sv = "base" /\ sig.n > 0 /\ SigInCode(sig, code)
+             found == c.sv = "base" /\ SigInCode(sig, code)
          IN
-         IF found /\ Has(c, "CONST_SCRIPTCODE") THEN Failed("findanddelete")
+         IF found /\ Has(c, "CONST_SCRIPTCODE") THEN Failed(IF sig.n = 0 THEN "findanddelete-emptysig" ELSE "findanddelete")
          ELSE IF se # "" THEN Failed(se)
          ELSE IF ke # "" THEN Failed(ke)
-         ELSE LET ok == EcdsaValid(sig, key, s, c) IN
+         ELSE LET ok == EcdsaValid(sig, key, s, c, script, code) IN
               IF ~ok /\ Has(c, "NULLFAIL") /\ sig.n > 0 THEN Failed("nullfail")
               ELSE WithStack(s, Append(PopN(s.st, 2), BoolElem(ok)))
 
 \* tapscript signature check shared by CHECKSIG(VERIFY) and CHECKSIGADD:
 \* result [err, ok, bud]
-TapSigCheck(sig, key, s, c) ==
+TapSigCheck(sig, key, s, c, script) ==
     LET bud1 == IF sig.n > 0 THEN s.bud - 50 ELSE s.bud IN
     IF sig.n > 0 /\ bud1 < 0 THEN [err |-> "tapsigops", ok |-> FALSE, bud |-> 0]
     ELSE IF key.n = 0 THEN [err |-> "pubkeytype", ok |-> FALSE, bud |-> 0]
     ELSE IF key.n = 32 THEN
         IF sig.n = 0 THEN [err |-> "", ok |-> FALSE, bud |-> bud1]
         ELSE IF sig.t = "sig" /\ sig.b[2] = 64 /\ (sig.n = 64 \/ sig.b[1] \in {1, 2, 3, 129, 130, 131})
-                /\ key.t = "key" /\ key.b[1] = 32 /\ sig.k = key.k /\ sig.b[3] = 2 /\ sig.b[4] = s.cs
+                /\ key.t = "key" /\ key.b[1] = 32 /\ sig.k = key.k /\ sig.b[3] = (IF c.ax THEN 5 ELSE 2) /\ sig.b[4] = s.cs
+                /\ ~SelfCovered(sig, c, script, script)
              THEN [err |-> "", ok |-> TRUE, bud |-> bud1]
         ELSE [err |-> "schnorr", ok |-> FALSE, bud |-> 0]     \* size, hash type or signature invalid
     ELSE IF Has(c, "DISCOURAGE_UPGRADABLE_PUBKEYTYPE")
          THEN [err |-> IF sig.n = 0 THEN "discouragepubkeytype-emptysig" ELSE "discouragepubkeytype", ok |-> FALSE, bud |-> 0]
     ELSE [err |-> "", ok |-> sig.n > 0, bud |-> bud1]           \* unknown key type: any non-empty signature passes
 
-CheckSigTap(s, c) ==
+CheckSigTap(s, c, script) ==
     IF Depth(s) < 2 THEN Failed("stack")
-    ELSE LET r == TapSigCheck(Peek(s, 1), Peek(s, 0), s, c) IN
+    ELSE LET r == TapSigCheck(Peek(s, 1), Peek(s, 0), s, c, script) IN
          IF r.err # "" THEN Failed(r.err)
          ELSE [s EXCEPT !.st = Append(PopN(@, 2), BoolElem(r.ok)), !.bud = r.bud]
 
-CheckSigAdd(s, c) ==
+CheckSigAdd(s, c, script) ==
     IF c.sv # "tap" THEN Failed("badopcode")
     ELSE IF Depth(s) < 3 THEN Failed("stack")
     ELSE LET sig == Peek(s, 2)  num == Peek(s, 1)  key == Peek(s, 0)  ne == NumErr(num, c, 4) IN
          IF ne # "" THEN Failed(ne)
-         ELSE LET r == TapSigCheck(sig, key, s, c) IN
+         ELSE LET r == TapSigCheck(sig, key, s, c, script) IN
               IF r.err # "" THEN Failed(r.err)
               ELSE [s EXCEPT !.st = Append(PopN(@, 3), Raw(EncodeSum(Num(num), IF r.ok THEN 1 ELSE 0))),
                              !.bud = r.bud]
 
 \* OP_CHECKMULTISIG.  Stack: dummy sig_1..sig_m m key_1..key_n n (n on top)
-RECURSIVE MultiLoop(_, _, _, _, _, _)
+RECURSIVE MultiLoop(_, _, _, _, _, _, _, _)
 \* sigs, keys in evaluation order (first = nearest to the top); result "ok" / "fail" / error class
-MultiLoop(sigs, keys, isig, ikey, s, c) ==
+MultiLoop(sigs, keys, isig, ikey, s, c, script, code) ==
     LET nsig == Len(sigs) - isig + 1  nkey == Len(keys) - ikey + 1 IN
     IF nsig = 0 THEN "ok"
     ELSE IF nsig > nkey THEN "fail"
     ELSE LET sig == sigs[isig]  key == keys[ikey]
              se == SigEncErr(sig, c)  ke == KeyEncErr(key, c) IN
          IF se # "" THEN se
-         ELSE IF ke # "" THEN ke
-         ELSE IF EcdsaValid(sig, key, s, c) THEN MultiLoop(sigs, keys, isig + 1, ikey + 1, s, c)
-         ELSE MultiLoop(sigs, keys, isig, ikey + 1, s, c)
+         ELSE IF ke # "" THEN (IF sig.n = 0 THEN ke \o "-emptysig" ELSE ke)
+         ELSE IF EcdsaValid(sig, key, s, c, script, code) THEN MultiLoop(sigs, keys, isig + 1, ikey + 1, s, c, script, code)
+         ELSE MultiLoop(sigs, keys, isig, ikey + 1, s, c, script, code)
 
-CheckMultiSig(s, c, code) ==
+CheckMultiSig(s, c, script, code) ==
     IF c.sv = "tap" THEN Failed("tapmultisig")
     ELSE IF Depth(s) < 1 THEN Failed("stack")
     ELSE LET ne == NumErr(Peek(s, 0), c, 4) IN
@@ -424,17 +452,18 @@ CheckMultiSig(s, c, code) ==
     ELSE LET keys == [i \in 1..nk |-> Peek(s, i)]
              sigs == [i \in 1..ns |-> Peek(s, nk + 1 + i)]
              dummy == Peek(s, nk + ns + 2)
-             found == c.sv = "base" /\ \E i \in 1..ns : sigs[i].n > 0 /\ SigInCode(sigs[i], code)
-             res == MultiLoop(sigs, keys, 1, 1, s, c)
+             found == c.sv = "base" /\ \E i \in 1..ns : SigInCode(sigs[i], code)
+             res == MultiLoop(sigs, keys, 1, 1, s, c, script, code)
          IN
-         IF found /\ Has(c, "CONST_SCRIPTCODE") THEN Failed("findanddelete")
+         IF found /\ Has(c, "CONST_SCRIPTCODE")
+            THEN Failed(IF \E i \in 1..ns : sigs[i].n > 0 /\ SigInCode(sigs[i], code) THEN "findanddelete" ELSE "findanddelete-emptysig")
          ELSE IF res \notin {"ok", "fail"} THEN Failed(res)
          ELSE IF res = "fail" /\ Has(c, "NULLFAIL") /\ \E i \in 1..ns : sigs[i].n > 0 THEN Failed("nullfail")
          ELSE IF Has(c, "NULLDUMMY") /\ dummy.n > 0 THEN Failed("nulldummy")
          ELSE [s EXCEPT !.st = Append(PopN(@, nk + ns + 3), BoolElem(res = "ok")), !.ops = @ + nk]
 
 \* the effect of an executed (or conditional) non-push opcode
-Do(s, tok, c, exec, code) ==
+Do(s, tok, c, exec, script, code) ==
     LET op == tok.op  d == Depth(s)  st == s.st IN
     CASE op = "OP_NOP" -> s
       [] op \in UpgradableNops -> IF Has(c, "DISCOURAGE_NOPS") THEN Failed("discouragenops") ELSE s
@@ -518,12 +547,12 @@ Do(s, tok, c, exec, code) ==
                                [] op = "OP_HASH256" -> "hash256" IN
                  WithStack(s, Append(PopN(st, 1), HashOf(kind, st[d])))
       [] op = "OP_CODESEPARATOR" -> [s EXCEPT !.cs = s.pc]
-      [] op = "OP_CHECKSIG" -> IF c.sv = "tap" THEN CheckSigTap(s, c) ELSE CheckSigLegacy(s, c, code)
+      [] op = "OP_CHECKSIG" -> IF c.sv = "tap" THEN CheckSigTap(s, c, script) ELSE CheckSigLegacy(s, c, script, code)
       [] op = "OP_CHECKSIGVERIFY" ->
-            VerifyTop(IF c.sv = "tap" THEN CheckSigTap(s, c) ELSE CheckSigLegacy(s, c, code), "checksigverify")
-      [] op = "OP_CHECKSIGADD" -> CheckSigAdd(s, c)
-      [] op = "OP_CHECKMULTISIG" -> CheckMultiSig(s, c, code)
-      [] op = "OP_CHECKMULTISIGVERIFY" -> VerifyTop(CheckMultiSig(s, c, code), "checkmultisigverify")
+            VerifyTop(IF c.sv = "tap" THEN CheckSigTap(s, c, script) ELSE CheckSigLegacy(s, c, script, code), "checksigverify")
+      [] op = "OP_CHECKSIGADD" -> CheckSigAdd(s, c, script)
+      [] op = "OP_CHECKMULTISIG" -> CheckMultiSig(s, c, script, code)
+      [] op = "OP_CHECKMULTISIGVERIFY" -> VerifyTop(CheckMultiSig(s, c, script, code), "checkmultisigverify")
       \* OP_VER, OP_VERIF, OP_VERNOTIF, OP_RESERVED*, undefined opcodes, OP_INVALIDOPCODE
       [] OTHER -> Failed("badopcode")
 
@@ -544,7 +573,7 @@ Exec(s, tok, c, script) ==
                   (IF ~exec THEN s1
                    ELSE IF Has(c, "MINIMALDATA") /\ ~MinimalPush(tok) THEN Failed("minimaldata")
                    ELSE [s1 EXCEPT !.st = Append(@, PushVal(tok))])
-             ELSE IF exec \/ tok.op \in CondOps THEN Do(s1, tok, c, exec, code)
+             ELSE IF exec \/ tok.op \in CondOps THEN Do(s1, tok, c, exec, script, code)
              ELSE s1
     IN IF r.err = "" /\ Len(r.st) + Len(r.alt) > 1000 THEN Failed("stacksize") ELSE r
 
